@@ -8,17 +8,24 @@ package main
 //      NEW helper (sibling functions merged into one that takes a selector argument: decset/decrst ->
 //      setPrivateModes(params, on)) gets the helper's body back, whatever its size (the global pass refuses
 //      helpers above c15MaxInlineNodes), with the constant arguments substituted;
+//   1b. moved bodies: a NEW helper too large for the global pass that is referred to only a few times (a switch
+//      moved verbatim out of its loop into a per-item method) is inlined at its call sites (c05MovedBodies).
 //   2. constant conditions: `if true { A } else { B }` / `if false {...}` left behind by (1) are folded to the
 //      branch that runs;
 //   3. boolean flags: a local that is defined once from a pure boolean condition
 //      (`outside := row < top || row > bottom || ...`) and only read afterwards is substituted into its uses when
 //      no operand of the condition can change between the definition and the use (the propagation of c15norm.go,
-//      restricted to boolean definitions that are real conditions: c03IsFlagDef).
+//      restricted to boolean definitions that are real conditions: c03IsFlagDef);
+//   4. names for pieces of a control sequence's parameter list ([][]int): `p := params[i]` (the group being looked
+//      at) and `remaining := len(params) - i` (a count derived from the list's length) are substituted into their
+//      uses under the same condition (single definition, no operand changes between definition and use), so that
+//      the length guards and the indexings read in terms of the list again (c05IsParamListDef);
 //
 // On a tree that has none of these constructs the pass changes nothing. VX_NO_NORMALISE=1 switches it off.
 
 import (
 	"go/ast"
+	"go/token"
 	"go/types"
 	"os"
 
@@ -61,12 +68,23 @@ func c05Normalise(c *Ctx) {
 			}
 		}
 		oldMax := c15MaxInlineNodes
+		moved := c05MovedBodies(in, oldMax)
+		baseAnchor := in.anchor
 		c15MaxInlineNodes = 4000
 		for _, f := range pk.Syntax {
 			in.curFile = f
 			for _, d := range f.Decls {
 				fd, ok := d.(*ast.FuncDecl)
-				if !ok || fd.Body == nil || !refFuncNames[fd.Name.Name] || !c05IsThinWrapper(in, fd) {
+				if !ok || fd.Body == nil {
+					continue
+				}
+				switch {
+				case refFuncNames[fd.Name.Name] && c05IsThinWrapper(in, fd):
+					in.anchor = baseAnchor
+				case c05CallsAny(in, fd, moved):
+					// 1b. only the moved bodies are put back here; every other helper stays as the global pass left it
+					in.anchor = func(hd *ast.FuncDecl) bool { return baseAnchor(hd) || !moved[hd] }
+				default:
 					continue
 				}
 				in.curFn, _ = pk.TypesInfo.Defs[fd.Name].(*types.Func)
@@ -78,6 +96,7 @@ func c05Normalise(c *Ctx) {
 				fd.Body.List = in.rewriteList(fd.Body.List)
 			}
 		}
+		in.anchor = baseAnchor
 		c15MaxInlineNodes = oldMax
 		if len(in.changed) == 0 {
 			break
@@ -106,9 +125,11 @@ func c05Normalise(c *Ctx) {
 						continue
 					}
 					did := c05FoldConstIfs(pk.TypesInfo, fd.Body)
-					if !did && c03HasFlagDef(pk.TypesInfo, fd) {
+					if !did && (c03HasFlagDef(pk.TypesInfo, fd) || c05HasParamListDef(pk.TypesInfo, fd)) {
 						old := c15PropagateOnly
-						c15PropagateOnly = c03IsFlagDef
+						c15PropagateOnly = func(info *types.Info, o types.Object, def ast.Expr) bool {
+							return c03IsFlagDef(info, o, def) || c05IsParamListDef(info, o, def)
+						}
 						did = c15PropagateIn(c, pk, pk.TypesInfo, f, fd)
 						c15PropagateOnly = old
 					}
@@ -130,6 +151,53 @@ func c05Normalise(c *Ctx) {
 			return
 		}
 	}
+}
+
+// c05MovedBodies: NEW helpers of the package that the global pass left as calls only because of their size (more
+// than stdMax nodes) and that are referred to so rarely that putting the body back costs little (references x size
+// within a fixed budget): the product of "move this block into a function of its own" (a switch body moved verbatim
+// out of its loop into a per-item method; one phase of a long function split out). Their bodies are inlined at
+// every call site the inliner understands, whatever the shape of the caller.
+func c05MovedBodies(in *c15Inliner, stdMax int) map[*ast.FuncDecl]bool {
+	const budget, maxRefs = 2400, 4
+	refs := map[types.Object]int{}
+	for _, o := range in.info.Uses {
+		if fn, ok := o.(*types.Func); ok {
+			refs[fn]++
+		}
+	}
+	out := map[*ast.FuncDecl]bool{}
+	for fn, hd := range in.decls {
+		if in.anchor(hd) || hd.Body == nil {
+			continue
+		}
+		n := c15CountNodes(hd.Body)
+		r := refs[fn]
+		if n <= stdMax || r == 0 || r > maxRefs || n*r > budget {
+			continue
+		}
+		out[hd] = true
+	}
+	return out
+}
+
+// c05CallsAny: does the body of fd call one of the given helpers?
+func c05CallsAny(in *c15Inliner, fd *ast.FuncDecl, set map[*ast.FuncDecl]bool) bool {
+	if len(set) == 0 {
+		return false
+	}
+	found := false
+	ast.Inspect(fd.Body, func(n ast.Node) bool {
+		if call, ok := n.(*ast.CallExpr); ok && !found {
+			if fn := calleeOf(in.info, call); fn != nil {
+				if hd := in.decls[fn]; hd != nil && hd != fd && set[hd] {
+					found = true
+				}
+			}
+		}
+		return !found
+	})
+	return found
 }
 
 // c05IsThinWrapper: the body is one statement whose only work is a call of a new (non-reference, unexported)
@@ -279,4 +347,114 @@ func c05DropUnusedLabels(body *ast.BlockStmt) {
 		}
 		return true
 	})
+}
+
+// ---------------------------------------------------------------------------
+// names for pieces of a parameter list
+
+// c05IsParamList: [][]<integer> — the parameter list of a control sequence (groups of sub-parameters).
+func c05IsParamList(t types.Type) bool {
+	if t == nil {
+		return false
+	}
+	outer, ok := t.Underlying().(*types.Slice)
+	if !ok {
+		return false
+	}
+	inner, ok := outer.Elem().Underlying().(*types.Slice)
+	if !ok {
+		return false
+	}
+	b, ok := inner.Elem().Underlying().(*types.Basic)
+	return ok && b.Info()&types.IsInteger != 0
+}
+
+// c05IsParamListDef: the definition names a piece of a parameter list: one group of it (`L[i]`, L a variable of
+// type [][]int) or an integer built with + and - from constants, integer variables and at least one len() of a
+// parameter list or of one of its groups / tails (`len(L) - i`, `len(L[i])`, `len(L[i:]) - 1`).
+func c05IsParamListDef(info *types.Info, o types.Object, def ast.Expr) bool {
+	if tv, ok := info.Types[def]; ok && tv.Value != nil {
+		return false
+	}
+	listVar := func(e ast.Expr) bool {
+		id, ok := unparen(e).(*ast.Ident)
+		if !ok {
+			return false
+		}
+		v, ok := info.ObjectOf(id).(*types.Var)
+		return ok && !v.IsField() && c05IsParamList(v.Type())
+	}
+	def = unparen(def)
+	if ix, ok := def.(*ast.IndexExpr); ok {
+		return listVar(ix.X)
+	}
+	b, ok := o.Type().Underlying().(*types.Basic)
+	if !ok || b.Info()&types.IsInteger == 0 {
+		return false
+	}
+	lens := 0
+	var lin func(e ast.Expr) bool
+	lin = func(e ast.Expr) bool {
+		e = unparen(e)
+		if tv, ok := info.Types[e]; ok && tv.Value != nil {
+			return true
+		}
+		switch t := e.(type) {
+		case *ast.Ident:
+			v, ok := info.ObjectOf(t).(*types.Var)
+			return ok && !v.IsField()
+		case *ast.BinaryExpr:
+			return (t.Op == token.ADD || t.Op == token.SUB) && lin(t.X) && lin(t.Y)
+		case *ast.CallExpr:
+			id, ok := unparen(t.Fun).(*ast.Ident)
+			if !ok || len(t.Args) != 1 {
+				return false
+			}
+			if bi, ok := info.Uses[id].(*types.Builtin); !ok || bi.Name() != "len" {
+				return false
+			}
+			arg := unparen(t.Args[0])
+			switch a := arg.(type) {
+			case *ast.IndexExpr:
+				arg = a.X
+			case *ast.SliceExpr:
+				arg = a.X
+			}
+			if listVar(arg) {
+				lens++
+				return true
+			}
+		}
+		return false
+	}
+	return lin(def) && lens > 0
+}
+
+func c05HasParamListDef(info *types.Info, fd *ast.FuncDecl) bool {
+	found := false
+	ast.Inspect(fd.Body, func(n ast.Node) bool {
+		if found {
+			return false
+		}
+		switch t := n.(type) {
+		case *ast.FuncLit:
+			return false
+		case *ast.AssignStmt:
+			if t.Tok == token.DEFINE && len(t.Lhs) == 1 && len(t.Rhs) == 1 {
+				if id, ok := t.Lhs[0].(*ast.Ident); ok {
+					if o := info.Defs[id]; o != nil && c05IsParamListDef(info, o, t.Rhs[0]) {
+						found = true
+					}
+				}
+			}
+		case *ast.ValueSpec:
+			if len(t.Names) == 1 && len(t.Values) == 1 {
+				if o := info.Defs[t.Names[0]]; o != nil && c05IsParamListDef(info, o, t.Values[0]) {
+					found = true
+				}
+			}
+		}
+		return true
+	})
+	return found
 }
